@@ -4,7 +4,7 @@
 From Coq Require Import NArith ZArith List Bool.
 Import ListNotations.
 Require Import UV.C07.Model UV.C07.Check UV.C07.Proofs UV.C07.Replay UV.C07.RecordReplay.
-Require UV.C07.RecordProof UV.C07.RecordProofCyg UV.C07.Range UV.C07.Multi UV.C07.MultiReplay.
+Require UV.C07.RecordProof UV.C07.RecordProofCyg UV.C07.Range UV.C07.Multi UV.C07.MultiReplay UV.C07.Switch.
 Local Open Scope Z_scope.
 
 (* get_task_ustack's look-ahead list (time filter -t / time=, caller filter -C, `trace`) hands the
@@ -123,6 +123,22 @@ Theorem C07_matches_documented_replay_tasks : forall c fs t,
   Multi.of_task t (run_rp_m c (map (flats 0) fs)) = select c (nth t fs []).
 Proof. exact MultiReplay.replay_multi_select. Qed.
 Print Assumptions C07_matches_documented_replay_tasks.
+
+(* trace_on / trace_off (-T f@trace_on, f@trace_off): the calls shown are exactly those the documented switch
+   lets through - one switch along the order of events, touched only by functions that -F/-N let through,
+   the trace_off function itself hidden, the trace_on function shown - for every forest and every option set
+   without depth= / -H whose nesting stays within -D (names of the events; display depths not claimed). *)
+Theorem C07_trace_switch_documented : forall c f,
+  Switch.sw_cfg c -> no_range c = true -> Switch.fheightZ f <= gdepth c ->
+  map ob_n (run_std c (flats 0 f)) = select_sw c f.
+Proof. exact Switch.switch_std. Qed.
+Print Assumptions C07_trace_switch_documented.
+
+Theorem C07_trace_switch_replay : forall c f,
+  Switch.sw_cfg c -> plt_free_all c -> no_range c = true -> Switch.fheightZ f <= gdepth c ->
+  map ob_n (run_rp c (flats 0 f)) = select_sw c f /\ map ob_n (run_script c (flats 0 f)) = select_sw c f.
+Proof. exact Switch.switch_replay. Qed.
+Print Assumptions C07_trace_switch_replay.
 
 (* --no-libcall breaks the agreement: replay tests the symbol type before fstack_entry *)
 Theorem C07_no_libcall_commands_agree_refuted :
